@@ -674,6 +674,54 @@ pub fn packetize_section(r: &Rng, pid: u16, cc: &mut u8, section: &[u8], plan: &
     out
 }
 
+/// Pack sections back to back on one PID, as real multiplexers do: when a section ends inside a
+/// packet, its last `t` bytes travel as the pointer_field bytes of the packet that starts the next
+/// section.  That packet carries `j` bytes of the new section (`j >= min_j`; the packet is
+/// shortened by adaptation-field stuffing unless it is filled).  A final stuffing start (0xff…)
+/// flushes the last tail.
+pub fn pack_sections(r: &Rng, pid: u16, cc: &mut u8, secs: &[Vec<u8>], min_j: usize) -> Vec<Vec<u8>> {
+    let mut out = vec![];
+    let mut carry: Vec<u8> = vec![];
+    for sec in secs.iter() {
+        // pointer bytes must leave room for at least min_j (<= 183 - t) bytes of the new section
+        while carry.len() + min_j.max(1) > 183 {
+            let take = (carry.len() - (183 - min_j.max(1))).min(184).max(1);
+            let pl: Vec<u8> = carry.drain(..take).collect();
+            out.push(mk_pkt(r, pid, false, *cc, &pl, false)); *cc = (*cc + 1) & 15;
+        }
+        let j_max = (183 - carry.len()).min(sec.len());
+        let lo = min_j.max(1).min(j_max);
+        let j = match r.below(5) { 0 => lo, 1 => lo + r.below((j_max - lo + 1).min(9) as u64) as usize, 2 => lo + r.below((j_max - lo + 1) as u64) as usize, 3 => j_max.saturating_sub(1).max(lo), _ => j_max };
+        let mut pl = vec![carry.len() as u8];
+        pl.extend_from_slice(&carry);
+        pl.extend_from_slice(&sec[..j]);
+        if j == sec.len() && r.chance(1, 2) { while pl.len() < 184 { pl.push(0xff); } }
+        out.push(mk_pkt(r, pid, true, *cc, &pl, false)); *cc = (*cc + 1) & 15;
+        carry.clear();
+        let mut pos = j;
+        // continuation packets until at most `t` bytes are left for the next start packet
+        let t = if r.chance(1, 3) { 0 } else { r.below(150) as usize };
+        while sec.len() - pos > t {
+            let rem = sec.len() - pos;
+            let take = match r.below(5) { 0 => 1, 1 => 183, 2 => 182, _ => 184 }.min(rem - t.min(rem)).max(1).min(rem);
+            out.push(mk_pkt(r, pid, false, *cc, &sec[pos..pos + take], false)); *cc = (*cc + 1) & 15;
+            pos += take;
+        }
+        carry = sec[pos..].to_vec();
+    }
+    if !carry.is_empty() {
+        while carry.len() > 183 {
+            let pl: Vec<u8> = carry.drain(..184).collect();
+            out.push(mk_pkt(r, pid, false, *cc, &pl, false)); *cc = (*cc + 1) & 15;
+        }
+        let mut pl = vec![carry.len() as u8];
+        pl.extend_from_slice(&carry);
+        while pl.len() < 184 { pl.push(0xff); }
+        out.push(mk_pkt(r, pid, true, *cc, &pl, false)); *cc = (*cc + 1) & 15;
+    }
+    out
+}
+
 pub fn simple_plan(section_len: usize) -> SecPlan {
     SecPlan { pre: vec![], first: section_len.min(183), conts: vec![], trailing_stuff: true }
 }
@@ -682,8 +730,10 @@ pub fn rand_plan(r: &Rng, section_len: usize, min_first: usize) -> SecPlan {
     let pre_len = if r.chance(1, 4) { r.below(40) as usize } else { 0 };
     let max_first = 183 - pre_len;
     let lo = min_first.min(section_len).min(max_first);
-    let first = if r.chance(1, 3) { lo + r.below((max_first - lo + 1) as u64) as usize } else { max_first };
-    let conts = (0..8).map(|_| match r.below(4) { 0 => 1 + r.below(184) as usize, 1 => 1, _ => 184 }).collect();
+    // max_first fills the packet (184-byte payload); max_first - 1 gives a 183-byte payload, i.e. the
+    // one-byte adaptation field of length 0
+    let first = match r.below(6) { 0 | 1 => lo + r.below((max_first - lo + 1) as u64) as usize, 2 => max_first.saturating_sub(1).max(lo), _ => max_first };
+    let conts = (0..8).map(|_| match r.below(8) { 0 => 1 + r.below(184) as usize, 1 => 1, 2 => 183, 3 => 182, 4 => 2, _ => 184 }).collect();
     SecPlan { pre: vec![0xff; pre_len], first, conts, trailing_stuff: r.chance(1, 2) }
 }
 
@@ -978,6 +1028,12 @@ impl<'r> Mux<'r> {
         self.cc.insert(pid, c);
         p
     }
+    pub fn packed(&mut self, pid: u16, secs: &[Vec<u8>], min_j: usize) -> Vec<Vec<u8>> {
+        let mut c = self.cc(pid);
+        let p = pack_sections(self.r, pid, &mut c, secs, min_j);
+        self.cc.insert(pid, c);
+        p
+    }
     pub fn pes(&mut self, pid: u16, spec: &PesSpec, exact: bool) -> Vec<Vec<u8>> {
         let (b, hl) = pes_bytes(self.r, spec);
         let mut c = self.cc(pid);
@@ -1025,7 +1081,12 @@ pub fn rand_progs(r: &Rng, nprog: usize, max_streams: usize, used: &mut Vec<u16>
     for i in 0..nprog {
         let pmt_pid = distinct_pids(r, 1, used)[0]; used.push(pmt_pid);
         let ns = 1 + r.below(max_streams as u64) as usize;
-        let pids = distinct_pids(r, ns, used); used.extend(&pids);
+        let mut pids = distinct_pids(r, ns, used);
+        // boundary PIDs (first / last legal values) now and then
+        for cand in [0x1fffu16, 0x1ffe, 0x0001, 0x0010] {
+            if r.chance(1, 12) && !used.contains(&cand) && !pids.contains(&cand) { let k = r.below(pids.len() as u64) as usize; pids[k] = cand; }
+        }
+        used.extend(&pids);
         let streams: Vec<(u8, u16, Vec<u8>)> = pids.iter().map(|&p| {
             let st = if r.chance(5, 6) { PES_TYPES[r.below(6) as usize] } else { NON_PES_TYPES[r.below(3) as usize] };
             (st, p, if r.chance(1, 2) { rand_desc_loop(r, 2) } else { vec![] })
@@ -1149,6 +1210,7 @@ fn gen_c02(tier: &str, r: &Rng, o: &mut Out<'_>) {
             emit(o, true, "b0t0", &[concat(&pkts)]);
         }
     }
+    mixed_scenarios(tier, r, o, "C02");
     o.meta("plans", "1-3 programs, 1-4 streams, PES payload 0..=700, every header shape, stuffing, AF-only packets, repeated tables");
 }
 
@@ -1170,8 +1232,46 @@ fn gen_c10(tier: &str, r: &Rng, o: &mut Out<'_>) {
             let mut q = vec![]; for _ in 0..3 { q.extend(m.pes(*pid, &rand_pes(r, 500), false)); } qs.push(q);
         } } }
         let reps = 1 + r.below(if i % 10 == 0 { 50 } else { 6 });
-        qs.push(table_reps(&mut m, 0, &pat, reps as usize));
-        for (p, s) in progs.iter().zip(pmts.iter()) { qs.push(table_reps(&mut m, p.pmt_pid, s, reps as usize)); }
+        let style = i % 4;
+        let mut straddle = false;
+        if style == 1 {
+            // repetitions packed back to back (section tails in the pointer bytes of the next start)
+            let min_j = if i % 8 == 1 { 8 } else { straddle = true; 1 };
+            qs.push(m.packed(0, &vec![pat.clone(); reps as usize], min_j));
+            for (p, s) in progs.iter().zip(pmts.iter()) { qs.push(m.packed(p.pmt_pid, &vec![s.clone(); reps as usize], min_j)); }
+        } else if style == 2 {
+            // foreign sections on the table PIDs between repetitions: other table ids with their own
+            // version, and sections longer than the 1021 limit (never looked at by the table filters)
+            for (pid, sec) in std::iter::once((0u16, &pat)).chain(progs.iter().map(|p| p.pmt_pid).zip(pmts.iter())) {
+                let mut list = vec![];
+                for _ in 0..reps {
+                    list.push(sec.clone());
+                    if r.chance(1, 2) {
+                        let sl = [1022usize, 1023, 1024, 1030, 1100, 2047, 2048, 2049 + r.below(100) as usize, 4093][r.below(9) as usize];
+                        let mut f = vec![0x80 + r.below(8) as u8, 0xb0 | (sl >> 8) as u8, sl as u8, r.byte(), r.byte(), 0xc1 | ((r.byte() & 31) << 1), 0, 0];
+                        f.extend(r.bytes(sl - 5));
+                        list.push(f);
+                    }
+                }
+                qs.push(m.packed(pid, &list, 8));
+            }
+        } else if style == 3 {
+            // multi-section tables: two sections with the SAME version and different section_number
+            for (pid, sec) in std::iter::once((0u16, &pat)).chain(progs.iter().map(|p| p.pmt_pid).zip(pmts.iter())) {
+                let mut b = sec[..sec.len() - 4].to_vec();
+                b[6] = 1; b[7] = 1;
+                let sec_b = with_crc(b);
+                let mut a = sec[..sec.len() - 4].to_vec();
+                a[6] = 0; a[7] = 1;
+                let sec_a = with_crc(a);
+                let mut q = vec![];
+                for k in 0..(2 * reps as usize) { let s2 = if k % 2 == 0 { &sec_a } else { &sec_b }; q.extend(m.section(pid, s2, &plan_for(r, s2))); }
+                qs.push(q);
+            }
+        } else {
+            qs.push(table_reps(&mut m, 0, &pat, reps as usize));
+            for (p, s) in progs.iter().zip(pmts.iter()) { qs.push(table_reps(&mut m, p.pmt_pid, s, reps as usize)); }
+        }
         let mut all = head; all.extend(interleave(r, qs));
         // version sequence v -> w -> v on one PMT at the end
         if i % 5 == 0 {
@@ -1180,8 +1280,9 @@ fn gen_c10(tier: &str, r: &Rng, o: &mut Out<'_>) {
             all.extend(m.section(p2.pmt_pid, &s2, &plan_for(r, &s2)));
             let s1 = pmt_of(&progs[0]); all.extend(m.section(p2.pmt_pid, &s1, &plan_for(r, &s1)));
         }
-        emit(o, true, "b0t0", &rand_pushes(r, &all));
+        emit(o, !straddle, "b0t0", &rand_pushes(r, &all));
     }
+    mixed_scenarios(tier, r, o, "C10");
     o.meta("plans", "tables repeated 1..50x (single- and multi-packet) interleaved with PES packets; v->w->v");
 }
 
@@ -1257,6 +1358,7 @@ fn gen_c06(tier: &str, r: &Rng, o: &mut Out<'_>) {
         pkts.push(mk_pkt(r, 0x201, false, 0, &r.bytes(184), false));
         emit(o, true, "b0t0", &[concat(&pkts)]);
     } } }
+    mixed_scenarios(tier, r, o, "C06");
     o.meta("plans", "random PID mixes (run lengths 1..30, PIDs incl. 0, 1, 0x1fff), TEI x scrambling exhaustive, bad sync bytes, scripted changes inside runs");
 }
 
@@ -1286,6 +1388,7 @@ fn gen_c18(tier: &str, r: &Rng, o: &mut Out<'_>) {
         let pushes: Vec<Vec<u8>> = pk.clone();
         emit(o, true, cfg, &pushes);
     }
+    mixed_scenarios(tier, r, o, "C18");
     o.meta("plans", "random scripts (any PIDs, repetitions, self-targeting, inside runs, last packet of a push) + 9 targeted scripts");
 }
 
@@ -1336,72 +1439,112 @@ fn probes(m: &mut Mux<'_>, pids: &[u16]) -> Vec<Vec<u8>> {
     pids.iter().map(|&p| m.raw(p, false, &r.bytes(1 + r.below(184) as usize))).collect()
 }
 
+/// the stream entries of a PMT section built by `pmt_section`
+fn streams_of_section(sec: &[u8]) -> Vec<(u8, u16, Vec<u8>)> {
+    let body = &sec[8..sec.len() - 4];
+    let pil = (((body[2] & 0x0f) as usize) << 8) | body[3] as usize;
+    let mut off = 4 + pil;
+    let mut v = vec![];
+    while off + 5 <= body.len() {
+        let esil = (((body[off + 3] & 0x0f) as usize) << 8) | body[off + 4] as usize;
+        if off + 5 + esil > body.len() { break; }
+        v.push((body[off], (((body[off + 1] & 0x1f) as u16) << 8) | body[off + 2] as u16, body[off + 5..off + 5 + esil].to_vec()));
+        off += 5 + esil;
+    }
+    v
+}
+
+/// one random history of PAT / PMT versions with probe packets after every table
+fn c05_history(r: &Rng, i: usize) -> Vec<Vec<u8>> {
+
+    let mut m = Mux::new(r);
+    let mut used = vec![0u16, 0x1fff];
+    let mut progs = rand_progs(r, 1 + r.below(4) as usize, 4, &mut used);
+    let mut nit = if r.chance(1, 3) { let n = distinct_pids(r, 1, &used)[0]; used.push(n); Some(n) } else { None };
+    let mut patv = r.byte() & 31;
+    let mut all: Vec<Vec<u8>> = vec![];
+    let mut ever: Vec<u16> = vec![];
+    let emit_pat = |m: &mut Mux<'_>, all: &mut Vec<Vec<u8>>, progs: &[Prog], nit: Option<u16>, v: u8| {
+        let s = pat_section(9, v, &pat_of(progs, nit)); all.extend(m.section(0, &s, &plan_for(r, &s)));
+    };
+    emit_pat(&mut m, &mut all, &progs, nit, patv);
+    for p in progs.iter() { let s = pmt_of(p); all.extend(m.section(p.pmt_pid, &s, &plan_for(r, &s))); for st in p.streams.iter() { ever.push(st.1); } }
+    all.extend(probes(&mut m, &ever));
+    for _step in 0..(1 + r.below(5)) {
+        match r.below(if i % 4 == 0 { 3 } else { 6 }) {
+            0 | 1 | 2 => {
+                // new PMT version for one program: add / remove / re-type streams
+                let k = r.below(progs.len() as u64) as usize;
+                let p = &mut progs[k];
+                p.version = (p.version + 1 + r.below(3) as u8) & 31;
+                match r.below(4) {
+                    0 => { let np = distinct_pids(r, 1, &used)[0]; used.push(np); p.streams.push((PES_TYPES[r.below(6) as usize], np, vec![])); ever.push(np); }
+                    1 => { if p.streams.len() > 1 { let j = r.below(p.streams.len() as u64) as usize; p.streams.remove(j); } }
+                    2 => { let j = r.below(p.streams.len() as u64) as usize; p.streams[j].0 = if r.chance(1, 2) { 0x05 } else { PES_TYPES[r.below(6) as usize] }; }
+                    _ => { let j = r.below(p.streams.len() as u64) as usize; let st = p.streams.remove(j); p.streams.push(st); }
+                }
+                let s = pmt_of(p); let pid = p.pmt_pid;
+                if r.chance(1, 3) {
+                    // two versions back to back: the tail of the first travels in the pointer
+                    // bytes of the packet that starts (and may complete) the second
+                    p.version = (p.version + 1) & 31;
+                    if p.streams.len() > 1 && r.chance(1, 2) { p.streams.remove(0); }
+                    else { let j = r.below(p.streams.len() as u64) as usize; p.streams[j].0 = PES_TYPES[r.below(6) as usize]; }
+                    let mut s1 = s.clone();
+                    if s1.len() < 200 && r.chance(1, 2) {
+                        // make the first one span packets so that its tail really is carried over
+                        let mut big = p.clone(); big.version = (p.version + 31) & 31; big.streams = streams_of_section(&s1);
+                        for _ in 0..14 { big.prog_desc.extend(rand_desc(r)); }
+                        s1 = pmt_of(&big);
+                    }
+                    let s2 = pmt_of(p);
+                    all.extend(m.packed(pid, &[s1, s2], 8));
+                } else {
+                    all.extend(m.section(pid, &s, &plan_for(r, &s)));
+                }
+            }
+            3 => {
+                // new PAT version: add a program
+                let mut np = rand_progs(r, 1, 3, &mut used);
+                np[0].num = 100 + progs.len() as u16;
+                for st in np[0].streams.iter() { ever.push(st.1); }
+                patv = (patv + 1) & 31;
+                progs.extend(np.clone());
+                emit_pat(&mut m, &mut all, &progs, nit, patv);
+                for p in progs.iter() { let s = pmt_of(p); all.extend(m.section(p.pmt_pid, &s, &plan_for(r, &s))); }
+            }
+            4 => {
+                // new PAT version: drop a program / toggle the network entry
+                patv = (patv + 1) & 31;
+                if progs.len() > 1 && r.chance(2, 3) { let k = r.below(progs.len() as u64) as usize; progs.remove(k); }
+                else if nit.is_some() { nit = None } else { let n = distinct_pids(r, 1, &used)[0]; used.push(n); nit = Some(n); }
+                emit_pat(&mut m, &mut all, &progs, nit, patv);
+                for p in progs.iter() { let s = pmt_of(p); all.extend(m.section(p.pmt_pid, &s, &plan_for(r, &s))); }
+            }
+            _ => {
+                // PMT PID move for one program (PAT version bump)
+                patv = (patv + 1) & 31;
+                let k = r.below(progs.len() as u64) as usize;
+                let np = distinct_pids(r, 1, &used)[0]; used.push(np);
+                progs[k].pmt_pid = np;
+                emit_pat(&mut m, &mut all, &progs, nit, patv);
+                for p in progs.iter() { let s = pmt_of(p); all.extend(m.section(p.pmt_pid, &s, &plan_for(r, &s))); }
+            }
+        }
+        let mut pp = ever.clone(); pp.sort(); pp.dedup();
+        all.extend(probes(&mut m, &pp));
+        if let Some(nn) = nit { all.extend(probes(&mut m, &[nn])); }
+    }
+    all
+}
+
 fn gen_c05(tier: &str, r: &Rng, o: &mut Out<'_>) {
     let n = if tier == "thorough" { 60_000 } else { 2_000 };
     for i in 0..n {
-        let mut m = Mux::new(r);
-        let mut used = vec![0u16, 0x1fff];
-        let mut progs = rand_progs(r, 1 + r.below(4) as usize, 4, &mut used);
-        let mut nit = if r.chance(1, 3) { let n = distinct_pids(r, 1, &used)[0]; used.push(n); Some(n) } else { None };
-        let mut patv = r.byte() & 31;
-        let mut all: Vec<Vec<u8>> = vec![];
-        let mut ever: Vec<u16> = vec![];
-        let emit_pat = |m: &mut Mux<'_>, all: &mut Vec<Vec<u8>>, progs: &[Prog], nit: Option<u16>, v: u8| {
-            let s = pat_section(9, v, &pat_of(progs, nit)); all.extend(m.section(0, &s, &plan_for(r, &s)));
-        };
-        emit_pat(&mut m, &mut all, &progs, nit, patv);
-        for p in progs.iter() { let s = pmt_of(p); all.extend(m.section(p.pmt_pid, &s, &plan_for(r, &s))); for st in p.streams.iter() { ever.push(st.1); } }
-        all.extend(probes(&mut m, &ever));
-        for _step in 0..(1 + r.below(5)) {
-            match r.below(if i % 4 == 0 { 3 } else { 6 }) {
-                0 | 1 | 2 => {
-                    // new PMT version for one program: add / remove / re-type streams
-                    let k = r.below(progs.len() as u64) as usize;
-                    let p = &mut progs[k];
-                    p.version = (p.version + 1 + r.below(3) as u8) & 31;
-                    match r.below(4) {
-                        0 => { let np = distinct_pids(r, 1, &used)[0]; used.push(np); p.streams.push((PES_TYPES[r.below(6) as usize], np, vec![])); ever.push(np); }
-                        1 => { if p.streams.len() > 1 { let j = r.below(p.streams.len() as u64) as usize; p.streams.remove(j); } }
-                        2 => { let j = r.below(p.streams.len() as u64) as usize; p.streams[j].0 = if r.chance(1, 2) { 0x05 } else { PES_TYPES[r.below(6) as usize] }; }
-                        _ => { let j = r.below(p.streams.len() as u64) as usize; let st = p.streams.remove(j); p.streams.push(st); }
-                    }
-                    let s = pmt_of(p); let pid = p.pmt_pid;
-                    all.extend(m.section(pid, &s, &plan_for(r, &s)));
-                }
-                3 => {
-                    // new PAT version: add a program
-                    let mut np = rand_progs(r, 1, 3, &mut used);
-                    np[0].num = 100 + progs.len() as u16;
-                    for st in np[0].streams.iter() { ever.push(st.1); }
-                    patv = (patv + 1) & 31;
-                    progs.extend(np.clone());
-                    emit_pat(&mut m, &mut all, &progs, nit, patv);
-                    for p in progs.iter() { let s = pmt_of(p); all.extend(m.section(p.pmt_pid, &s, &plan_for(r, &s))); }
-                }
-                4 => {
-                    // new PAT version: drop a program / toggle the network entry
-                    patv = (patv + 1) & 31;
-                    if progs.len() > 1 && r.chance(2, 3) { let k = r.below(progs.len() as u64) as usize; progs.remove(k); }
-                    else if nit.is_some() { nit = None } else { let n = distinct_pids(r, 1, &used)[0]; used.push(n); nit = Some(n); }
-                    emit_pat(&mut m, &mut all, &progs, nit, patv);
-                    for p in progs.iter() { let s = pmt_of(p); all.extend(m.section(p.pmt_pid, &s, &plan_for(r, &s))); }
-                }
-                _ => {
-                    // PMT PID move for one program (PAT version bump)
-                    patv = (patv + 1) & 31;
-                    let k = r.below(progs.len() as u64) as usize;
-                    let np = distinct_pids(r, 1, &used)[0]; used.push(np);
-                    progs[k].pmt_pid = np;
-                    emit_pat(&mut m, &mut all, &progs, nit, patv);
-                    for p in progs.iter() { let s = pmt_of(p); all.extend(m.section(p.pmt_pid, &s, &plan_for(r, &s))); }
-                }
-            }
-            let mut pp = ever.clone(); pp.sort(); pp.dedup();
-            all.extend(probes(&mut m, &pp));
-            if let Some(nn) = nit { all.extend(probes(&mut m, &[nn])); }
-        }
+        let all = c05_history(r, i);
         emit(o, true, "b0t0", &rand_pushes(r, &all));
     }
+    mixed_scenarios(tier, r, o, "C05");
     o.meta("plans", "histories of PAT/PMT versions: streams added/removed/re-typed/reordered, programs added/dropped, NIT toggled, PMT PID moves; probe packets after every table");
 }
 
@@ -1491,6 +1634,46 @@ fn gen_c04(tier: &str, r: &Rng, o: &mut Out<'_>) {
     o.meta("exhaustive", "all 256 one-byte CRC inputs (= every table row); every single-bit corruption of the generated tables");
 }
 
+/// one damaged-transmission history: optional previously applied version, a damaged transmission
+/// (dmg: 0 bit flip, 1 lost continuation, 2 truncated after the first packet, 3 truncated later),
+/// then the intact transmission (same or different version), then probes
+fn c11_damage(r: &Rng, progs: &[Prog], pat: &[u8], pmt: &[u8], p0: &Prog, target_pat: bool, same_version: bool, dmg: usize) -> Vec<Vec<u8>> {
+    let sec = if target_pat { pat.to_vec() } else { pmt.to_vec() };
+    let pid = if target_pat { 0 } else { p0.pmt_pid };
+    let _ = progs;
+    let mut m = Mux::new(r);
+    let mut all = vec![];
+    if !target_pat { all.extend(m.section(0, pat, &simple_plan(pat.len()))); }
+    let had_prev = r.chance(1, 2);
+    if had_prev {
+        let mut prev = sec.clone();
+        prev[5] = (prev[5] & 0xc1) | ((((prev[5] >> 1) & 31).wrapping_add(7) & 31) << 1);
+        let l = prev.len(); prev.truncate(l - 4); let prev = with_crc(prev);
+        all.extend(m.section(pid, &prev, &plan_for(r, &prev)));
+    }
+    let mut damaged_pk = {
+        let mut bad = sec.clone();
+        if dmg == 0 { let b = 24 + r.below((bad.len() * 8 - 24) as u64) as usize; bad[b / 8] ^= 0x80 >> (b % 8); if b / 8 == 5 && (b % 8) >= 2 && (b % 8) <= 6 { bad[5] ^= 0x80 >> (b % 8); let k = 8 % bad.len(); bad[k] ^= 1; } }
+        let plan = if dmg == 0 { plan_for(r, &bad) } else { SecPlan { pre: vec![], first: 30.min(bad.len() - 1).max(8), conts: vec![40, 50], trailing_stuff: true } };
+        m.section(pid, &bad, &plan)
+    };
+    match dmg {
+        1 => { if damaged_pk.len() > 1 { let k = 1 + r.below((damaged_pk.len() - 1) as u64) as usize; damaged_pk.remove(k); } }
+        2 => { damaged_pk.truncate(1); }
+        3 => { if damaged_pk.len() > 1 { damaged_pk.truncate(1 + r.below((damaged_pk.len() - 1) as u64) as usize); } }
+        _ => {}
+    }
+    all.extend(damaged_pk);
+    let intact = if same_version { sec.clone() } else {
+        let mut s2 = sec.clone(); s2[5] = (s2[5] & 0xc1) | ((((s2[5] >> 1) & 31).wrapping_add(1) & 31) << 1);
+        let l = s2.len(); s2.truncate(l - 4); with_crc(s2)
+    };
+    for _ in 0..(1 + r.below(3)) { all.extend(m.section(pid, &intact, &plan_for(r, &intact))); }
+    let pp: Vec<u16> = p0.streams.iter().map(|s| s.1).chain(std::iter::once(p0.pmt_pid)).collect();
+    all.extend(probes(&mut m, &pp));
+    all
+}
+
 fn gen_c11(tier: &str, r: &Rng, o: &mut Out<'_>) {
     let nt = if tier == "thorough" { 4_000 } else { 150 };
     for t in 0..nt {
@@ -1499,42 +1682,9 @@ fn gen_c11(tier: &str, r: &Rng, o: &mut Out<'_>) {
         if t % 2 == 0 { for _ in 0..15 { p0.prog_desc.extend(rand_desc(r)); } }
         let pmt = pmt_of(&p0);
         for &target_pat in [true, false].iter() {
-            let sec = if target_pat { pat.clone() } else { pmt.clone() };
-            let pid = if target_pat { 0 } else { p0.pmt_pid };
-            // the "next intact" transmission: same version (F2 shape: id prefix hF2) or a different version
             for &same_version in [true, false].iter() {
                 for dmg in 0..4 {
-                    let mut m = Mux::new(r);
-                    let mut all = vec![];
-                    if !target_pat { all.extend(m.section(0, &pat, &simple_plan(pat.len()))); }
-                    // previously applied version (optional)
-                    let had_prev = r.chance(1, 2);
-                    if had_prev {
-                        let mut prev = sec.clone();
-                        prev[5] = (prev[5] & 0xc1) | ((((prev[5] >> 1) & 31).wrapping_add(7) & 31) << 1);
-                        let l = prev.len(); prev.truncate(l - 4); let prev = with_crc(prev);
-                        all.extend(m.section(pid, &prev, &plan_for(r, &prev)));
-                    }
-                    let mut damaged_pk = {
-                        let mut bad = sec.clone();
-                        if dmg == 0 { let b = 24 + r.below((bad.len() * 8 - 24) as u64) as usize; bad[b / 8] ^= 0x80 >> (b % 8); if b / 8 == 5 && (b % 8) >= 2 && (b % 8) <= 6 { bad[5] ^= 0x80 >> (b % 8); let k = 8 % bad.len(); bad[k] ^= 1; } }
-                        let plan = if dmg == 0 { plan_for(r, &bad) } else { SecPlan { pre: vec![], first: 30.min(bad.len() - 1).max(8), conts: vec![40, 50], trailing_stuff: true } };
-                        m.section(pid, &bad, &plan)
-                    };
-                    match dmg {
-                        1 => { if damaged_pk.len() > 1 { let k = 1 + r.below((damaged_pk.len() - 1) as u64) as usize; damaged_pk.remove(k); let c = m.cc(pid); m.cc.insert(pid, c); } }
-                        2 => { damaged_pk.truncate(1); }
-                        3 => { if damaged_pk.len() > 1 { damaged_pk.truncate(1 + r.below((damaged_pk.len() - 1) as u64) as usize); } }
-                        _ => {}
-                    }
-                    all.extend(damaged_pk);
-                    let intact = if same_version { sec.clone() } else {
-                        let mut s2 = sec.clone(); s2[5] = (s2[5] & 0xc1) | ((((s2[5] >> 1) & 31).wrapping_add(1) & 31) << 1);
-                        let l = s2.len(); s2.truncate(l - 4); with_crc(s2)
-                    };
-                    for _ in 0..(1 + r.below(3)) { all.extend(m.section(pid, &intact, &plan_for(r, &intact))); }
-                    let pp: Vec<u16> = p0.streams.iter().map(|s| s.1).chain(std::iter::once(p0.pmt_pid)).collect();
-                    all.extend(probes(&mut m, &pp));
+                    let all = c11_damage(r, &progs, &pat, &pmt, &p0, target_pat, same_version, dmg);
                     let body = format!("demux b0t0 {}", hex(&concat(&all)));
                     // same-version-as-damaged-start is the recorded finding F2; everything else is decisive
                     if same_version { o.h(&body); } else { o.d(&body); }
@@ -1542,7 +1692,33 @@ fn gen_c11(tier: &str, r: &Rng, o: &mut Out<'_>) {
             }
         }
     }
+    mixed_scenarios(tier, r, o, "C11");
     o.meta("plans", "each table x {bit flip, lost continuation, early restart, truncation} x following intact transmission (same / different version) x optional previously applied version");
+}
+
+/// a small sample of every scenario family, appended to each stateful property's own cases: a
+/// change that breaks property P may only manifest through a history typical of another property
+fn mixed_scenarios(tier: &str, r: &Rng, o: &mut Out<'_>, skip: &str) {
+    let n = if tier == "thorough" { 6_000 } else { 300 };
+    for i in 0..n {
+        let kind = i % 6;
+        let (pkts, decisive): (Vec<Vec<u8>>, bool) = match kind {
+            0 => (wf_mux(r, 1 + r.below(3) as usize, 3, 2, 400, true), true),
+            1 => { if skip == "C05" { continue; } (c05_history(r, i), true) }
+            2 => {
+                if skip == "C11" { continue; }
+                let (progs, pat) = base_tables(r);
+                let p0 = { let mut p = progs[0].clone(); for _ in 0..(12 + r.below(40)) { p.prog_desc.extend(rand_desc(r)); } p };
+                let pmt = pmt_of(&p0);
+                let same = r.chance(1, 2);
+                (c11_damage(r, &progs, &pat, &pmt, &p0, r.chance(1, 2), same, r.below(4) as usize), !same)
+            }
+            3 => (psi_torture(r), false),
+            4 => (dispatcher_stream(r, 10 + r.below(30) as usize, true), true),
+            _ => { let mut p = hostile_psi_stream(r); p.extend(wf_mux(r, 1, 2, 1, 200, false)); (p, false) }
+        };
+        emit(o, decisive, "b0t0", &rand_pushes(r, &pkts));
+    }
 }
 
 // ---------------------------------------------------------------- C01: hostile input, every accessor
@@ -1617,18 +1793,78 @@ fn hostile_psi_stream(r: &Rng) -> Vec<Vec<u8>> {
     all
 }
 
+/// adversarial PSI packet sequences on the PAT PID and a PMT PID: section starts that leave a
+/// chosen number of bytes outstanding, pointer_field past the end of the payload, starts with
+/// fewer than 3 / 8 bytes present, random continuations, payload-less packets, back-to-back packing
+fn psi_torture(r: &Rng) -> Vec<Vec<u8>> {
+    let mut m = Mux::new(r);
+    let pmt_pid = 0x100u16;
+    let pat = pat_section(1, 0, &[(1, pmt_pid)]);
+    let mut all = m.section(0, &pat, &simple_plan(pat.len()));
+    let mut ver = 1u8;
+    for _ in 0..(2 + r.below(10)) {
+        let pid = if r.chance(1, 2) { 0 } else { pmt_pid };
+        match r.below(9) {
+            0 | 1 => {
+                // a start whose section leaves `owed` bytes outstanding after the first packet
+                let first = 8 + r.below(176) as usize;
+                let owed = [1usize, 2, 3, 4, 5, 7, 8, 9, 100, 183, 184, 185, 400][r.below(13) as usize];
+                let sl = (first + owed).saturating_sub(3).min(1021).max(5);
+                let mut sec = vec![if pid == 0 { 0 } else { 2 }, 0xb0 | (sl >> 8) as u8, sl as u8, 0, 1, 0xc1 | ((ver & 31) << 1), 0, 0];
+                ver = ver.wrapping_add(1);
+                sec.extend(r.bytes(sl - 5));
+                let mut pl = vec![0u8]; pl.extend_from_slice(&sec[..first.min(sec.len())]);
+                all.push(m.raw(pid, true, &pl));
+            }
+            2 => { let n = 1 + r.below(184) as usize; all.push(m.raw(pid, false, &r.bytes(n))); }
+            3 => {
+                // pointer_field at / past the end of the payload
+                let n = 1 + r.below(184) as usize;
+                let mut pl = r.bytes(n);
+                pl[0] = (n as u8).wrapping_sub(r.below(3) as u8).wrapping_add(r.below(3) as u8);
+                if r.chance(1, 3) { pl[0] = 0xff; }
+                all.push(m.raw(pid, true, &pl));
+            }
+            4 => {
+                // a start with only k < 8 bytes of the section present
+                let k = r.below(9) as usize;
+                let ptr = r.below(20) as usize;
+                let mut pl = vec![ptr as u8]; pl.extend(r.bytes(ptr));
+                let mut hdr = vec![if pid == 0 { 0 } else { 2 }, 0xb0, 40, 0, 1, 0xc1 | ((ver & 31) << 1), 0, 0, 9];
+                ver = ver.wrapping_add(1);
+                hdr.truncate(k);
+                pl.extend(hdr);
+                all.push(m.raw(pid, true, &pl));
+            }
+            5 => { all.push(m.af_only(pid)); }
+            6 => {
+                let secs: Vec<Vec<u8>> = (0..(1 + r.below(3))).map(|_| { ver = ver.wrapping_add(1); let body = r.bytes(r.below(300) as usize); syntax_section(if pid == 0 { 0 } else { 2 }, 1, ver, &body) }).collect();
+                all.extend(m.packed(pid, &secs, 1));
+            }
+            7 => {
+                ver = ver.wrapping_add(1);
+                let sec = if pid == 0 { pat_section(1, ver, &[(1, pmt_pid), (0, 0x1fff), (2, 0x1ffe)]) } else { pmt_section(1, ver, 0x1fff, &[], &[(0x1b, 0x1fff, vec![]), (0x0f, 0x1ffe, vec![]), (0x05, 0, vec![])]) };
+                all.extend(m.section(pid, &sec, &plan_for(r, &sec)));
+            }
+            _ => { let n = 1 + r.below(6) as usize; all.push(m.raw(pid, r.chance(1, 2), &r.bytes(n))); }
+        }
+    }
+    all
+}
+
 fn gen_c01(tier: &str, r: &Rng, o: &mut Out<'_>) {
     let n = if tier == "thorough" { 50_000 } else { 1_200 };
     for i in 0..n {
         for &cfg in ["b0t1", "b1t1"].iter() {
-            let mut pkts = match i % 5 {
+            let mut pkts = match i % 6 {
+                5 => psi_torture(r),
                 0 => wf_mux(r, 1 + r.below(2) as usize, 3, 2, 300, true),
                 1 => hostile_psi_stream(r),
                 2 => dispatcher_stream(r, 5 + r.below(30) as usize, true),
                 3 => { let mut p = hostile_psi_stream(r); p.extend(wf_mux(r, 1, 2, 1, 200, false)); p }
                 _ => (0..(1 + r.below(20))).map(|_| { let mut p = rand_packet(r); if r.chance(1, 2) { p[1] &= 0x60; p[2] = [0u8, 0, 1, 0x11][r.below(4) as usize]; } if r.chance(1, 2) { p[3] &= 0x3f; } p }).collect(),
             };
-            if i % 5 != 4 { mutate(r, &mut pkts); }
+            if i % 6 != 4 && (i % 6 != 5 || r.chance(1, 3)) { mutate(r, &mut pkts); }
             let mut bytes = concat(&pkts);
             // cut anywhere, packet-aligned or not
             let mut pushes = vec![];
@@ -1706,6 +1942,27 @@ fn gen_c19(tier: &str, r: &Rng, o: &mut Out<'_>) {
         if pkts.is_empty() { pkts.push(null_pkt(r)); }
         let id = o.d(&format!("retain b0t0 {} 12", hex(&concat(&pkts))));
         o.expect(&id, "plateau");
+    }
+    // application-level section consumers without the de-duplication layer (SDT/EIT style): the same
+    // multi-packet table repeated; after two warm-up transmissions the reassembly buffer has its
+    // capacity and no further allocation may happen
+    let ns = if thorough { 2_000 } else { 100 };
+    for i in 0..ns {
+        let syntax = i % 2 == 0;
+        let sl = 190 + r.below(800) as usize;
+        let sec = rand_section(r, syntax, sl);
+        let mut cc = 0u8;
+        let mut pk = vec![];
+        let mut warm = 0;
+        for rep in 0..(6 + r.below(20)) {
+            let plan = if rep < 2 { simple_plan(sec.len()) } else { rand_plan(r, sec.len(), if syntax { 8 } else { 3 }) };
+            let mut plan = plan; plan.pre = vec![];
+            if 1 + plan.first > 184 { plan.first = 183; }
+            pk.extend(packetize_section(r, 0x11, &mut cc, &sec, &plan));
+            if rep == 1 { warm = pk.len(); }
+        }
+        let id = o.d(&format!("secsteady {} {} {}", if syntax { "s" } else { "c" }, warm, join(&pk)));
+        o.expect(&id, "allocs=0");
     }
     // zero-copy: ES payload ranges and single-packet sections are sub-slices of the pushed buffer
     let nz = if thorough { 10_000 } else { 400 };
